@@ -16,12 +16,9 @@ CONSTANTS
   ReorderMode = "bylayout"
   Ordered = TRUE
   Export = TRUE
-INVARIANT EachSampleOnce
-INVARIANT AccIsTwoPass
 INVARIANT MeanIsWeightedMean
 INVARIANT VarianceIsTwoPass
 INVARIANT ScheduleIndependent
 INVARIANT NoError
-INVARIANT FitsInv
 CONSTRAINT Emit
 CHECK_DEADLOCK FALSE
